@@ -283,7 +283,7 @@ func (h *HistGen) Observe(pool bool, last int) {
 		q = append(q, "p")
 	}
 	for a := 0; a <= NumUsers; a++ {
-		q = append(q, fmt.Sprintf("a%x", a))
+		q = append(q, fmt.Sprintf("a%x", a), fmt.Sprintf("b%x", a))
 	}
 	h.Emit("obs %s", strings.Join(append(q, keys...), " "))
 }
